@@ -32,6 +32,10 @@ def grid_spec(rng, g, t):
     kind = ["conv", "depthwise", "pool", "elementwise"][t % 4]
     if kind == "elementwise":
         s = g.elementwise()
+    elif t % 3 == 0:
+        # single-row outputs with wide, deep blocks: the accumulator rules for one-row operations (Conv1D: kernel height 1 only) decide the layout here
+        s = g.conv_like(kind, force=dict(oh=1, ow=int(rng.choice([24, 32, 48, 64, 100])), oc=int(rng.choice([16, 32, 64, 128])), kh=int(rng.choice([1, 2, 3, 5])),
+                                         kw=int(rng.choice([1, 3])), sy=int(rng.choice([1, 1, 2]))))
     else:
         s = g.conv_like(kind)
     return s
